@@ -156,6 +156,45 @@ func runEngineSelfTests() {
 			expect("E3 "+name, all, want)
 		}
 	}
+	// E1: residency through results
+	if f := fn("(*Store).BadEscape"); f != nil {
+		_, has := la.info[f].req["Store.mu"]
+		expect("E1 resident pointer returned out of the critical section (BadEscape)", has, true)
+	}
+	// E3b
+	{
+		tmp := &Ctx{Mod: t.Mod, GuardSpecs: t.GuardSpecs, RepoDir: t.RepoDir, Pkgs: t.Pkgs, byPath: t.byPath, Prog: t.Prog, Fset: t.Fset,
+			SrcFns: t.SrcFns, ruleDocs: map[string]string{}, ruleMin: map[string]int{}, idx: t.idx, lockA: la}
+		la.c = tmp
+		na := &nullAnalysis{c: tmp, la: la, rule: "self", seen: map[nkey]bool{}, nn: map[ssa.Value]string{}, reported: map[ssa.Instruction]bool{}}
+		na.run()
+		flagged := map[string]bool{}
+		for _, o := range tmp.Obls {
+			if o.Status == Violated {
+				for _, w := range []string{"BadDecodeElems", "GoodDecodeElems", "BadDecodePtr", "GoodDecodePtr", "BadDecodeField"} {
+					if strings.Contains(o.Detail, "cases."+w+")") {
+						flagged[w] = true
+					}
+				}
+			}
+		}
+		for w, want := range map[string]bool{"BadDecodeElems": true, "GoodDecodeElems": false, "BadDecodePtr": true, "GoodDecodePtr": false, "BadDecodeField": true} {
+			expect("E3b "+w, flagged[w], want)
+		}
+		la.c = t
+	}
+	// stepped index
+	for name, want := range map[string]bool{"BadStep": false, "GoodStep": true} {
+		if f := fn(name); f != nil {
+			sites := steppedIndexSites(f)
+			if len(sites) != 1 {
+				selfErrs = append(selfErrs, "stepped index testdata shape "+name)
+				continue
+			}
+			ia := sites[0].(*ssa.IndexAddr)
+			expect("stepped index "+name, indexGuarded(f, ia, nil, ia.Index), want)
+		}
+	}
 	// E4
 	for name, want := range map[string]int{"BadLoop": 1, "GoodLoop": 0, "GoodConstLoop": 0} {
 		if f := fn(name); f != nil {
